@@ -34,14 +34,20 @@ func (e *Env) Override(v val.V, parts ...string) {
 	e.Vals[k] = v
 }
 
+// Missing collects references to unknown or ambiguous columns made by Eval
+// since it was last reset (workers are single-threaded).
+var Missing []string
+
 func (e *Env) lookup(parts []string) val.V {
 	k := strings.Join(parts, sep)
 	if e.Ambig[k] {
+		Missing = append(Missing, "ambiguous column "+strings.Join(parts, "."))
 		return val.ERR
 	}
 	if v, ok := e.Vals[k]; ok {
 		return v
 	}
+	Missing = append(Missing, "unknown column "+strings.Join(parts, "."))
 	return val.ERR
 }
 
